@@ -143,7 +143,7 @@ def reader_keys(prog: Program, fn: FunctionInfo, param: str | None = None, _dept
     out: dict[str, RKey] = {}
     guarded: set[str] = set()
     for n in walk_no_nested(fn.node):
-        if isinstance(n, ast.Compare) and len(n.ops) == 1 and isinstance(n.ops[0], ast.In) and _const_key(n.left) and unparse(n.comparators[0]) == param:
+        if isinstance(n, ast.Compare) and len(n.ops) == 1 and isinstance(n.ops[0], (ast.In, ast.NotIn)) and _const_key(n.left) and unparse(n.comparators[0]) == param:
             guarded.add(_const_key(n.left))
 
     def add(k: str, required: bool, site: ast.AST) -> None:
